@@ -1,22 +1,22 @@
 /-
 The path rule of compound headers (dispatcher side of C02/T2.1): which node a
-header selects and which path it leaves behind, as a walk in the command tree.
+header selects and which path it leaves behind, as a walkKeys in the command tree.
 -/
 import Scpi.Proofs.RunSteps
 
 namespace Scpi
 
 /-- Follow a list of mnemonics down the tree. -/
-def walk : Node → List Bytes → Option Node
+def walkKeys : Node → List Bytes → Option Node
   | n, [] => some n
-  | n, k :: ks => (n.child k).bind fun c => walk c ks
+  | n, k :: ks => (n.child k).bind fun c => walkKeys c ks
 
 theorem walk_append (n : Node) (ks : List Bytes) (k : Bytes) :
-    walk n (ks ++ [k]) = (walk n ks).bind fun p => p.child k := by
+    walkKeys n (ks ++ [k]) = (walkKeys n ks).bind fun p => p.child k := by
   induction ks generalizing n with
-  | nil => simp [walk]
+  | nil => simp [walkKeys]
   | cons a as ih =>
-    simp only [List.cons_append, walk]
+    simp only [List.cons_append, walkKeys]
     cases n.child a with
     | none => rfl
     | some c => simp only [Option.bind_some]; exact ih c
@@ -40,7 +40,7 @@ path the node reached by all mnemonics but the last. -/
 theorem headerLoop_walk : ∀ (fuel : Nat) (node header : Node) (input rest : Bytes) (n : Node)
     (hdr : Option Node) (k0 : Bytes), header.child k0 = some node →
     headerLoop fuel node header input = .ok rest (n, hdr) →
-    ∃ ks, walk header (k0 :: ks) = some n ∧ hdr = walk header (k0 :: ks).dropLast ∧ hdr.isSome := by
+    ∃ ks, walkKeys header (k0 :: ks) = some n ∧ hdr = walkKeys header (k0 :: ks).dropLast ∧ hdr.isSome := by
   intro fuel
   induction fuel with
   | zero => intro _ _ _ _ _ _ _ _ h; cases h
@@ -55,18 +55,18 @@ theorem headerLoop_walk : ∀ (fuel : Nat) (node header : Node) (input rest : By
       obtain ⟨child, hchild, h⟩ := lookup_eq_ok h
       obtain ⟨ks, hw, hh, hsome⟩ := ih child node i2 rest n hdr res hchild h
       refine ⟨res :: ks, ?_, ?_, hsome⟩
-      · simp only [walk, hk, Option.bind_some]
-        simpa [walk] using hw
+      · simp only [walkKeys, hk, Option.bind_some]
+        simpa [walkKeys] using hw
       · rw [hh]
-        simp [List.dropLast, walk, hk]
+        simp [List.dropLast, walkKeys, hk]
     | soft e =>
       rw [hs] at h; cases h
-      exact ⟨[], by simp [walk, hk], by simp [walk], rfl⟩
+      exact ⟨[], by simp [walkKeys, hk], by simp [walkKeys], rfl⟩
     | fatal e => rw [hs] at h; cases h
     | incomplete => rw [hs] at h; cases h
     | crash c => rw [hs] at h; cases h
 
-/-- **Compound header = a walk**: a compound header that is accepted selects the node
+/-- **Compound header = a walkKeys**: a compound header that is accepted selects the node
 reached from the start node — the root when the header began with a colon, the
 current path `h` otherwise — by its mnemonics `names`, and leaves as new path the
 node reached by all of them but the last. -/
@@ -74,8 +74,8 @@ theorem compoundHeader_walk (root h : Node) (i rest : Bytes) (node : Node) (hdr 
     (hc : compoundHeader root h i = .ok rest (node, hdr)) :
     ∃ (i1 : Bytes) (colon : Option Unit) (names : List Bytes),
       optP headerSeparator i = .ok i1 colon ∧ names ≠ [] ∧
-      walk (if colon.isSome then root else h) names = some node ∧
-      hdr = walk (if colon.isSome then root else h) names.dropLast ∧ hdr.isSome := by
+      walkKeys (if colon.isSome then root else h) names = some node ∧
+      hdr = walkKeys (if colon.isSome then root else h) names.dropLast ∧ hdr.isSome := by
   unfold compoundHeader at hc
   obtain ⟨i1, colon, e1, hc⟩ := bind_eq_ok hc
   simp only [] at hc
@@ -93,7 +93,7 @@ theorem compoundHeader_parent (root h : Node) (i rest : Bytes) (node : Node) (hd
     ⟨names.dropLast, names.getLast hne, (List.dropLast_concat_getLast hne).symm⟩
   rw [List.dropLast_concat] at hh
   rw [walk_append] at hw
-  cases hp : walk (if colon.isSome then root else h) init with
+  cases hp : walkKeys (if colon.isSome then root else h) init with
   | none => rw [hp] at hw; cases hw
   | some p =>
     rw [hp] at hw hh
@@ -140,7 +140,7 @@ theorem compoundHeader_absolute (root h h' : Node) (i i1 : Bytes) (u : Unit)
   rw [hs]
   rfl
 
-/-- Without a leading colon the walk starts at the current path `h`. -/
+/-- Without a leading colon the walkKeys starts at the current path `h`. -/
 theorem compoundHeader_relative (root h : Node) (i i1 : Bytes)
     (hs : optP headerSeparator i = .ok i1 none) :
     compoundHeader root h i =
